@@ -325,10 +325,47 @@ def pubrel_race_family(report, prop, label="pubrel-race"):
                 ok = False
                 bad += 1
                 break
+    # the wire, connection by connection: the PUBREL of packet id 1 goes out at most once per connection, whatever the server
+    # repeats (C04: neither packet is ever repeated within one connection); a second PUBREC for a delivery whose PUBREC has
+    # already been received is a mismatched acknowledgement and must fail the connection (C11)
+    from walk import split_packets
+    from gv import resp_fields, unhex
+    once, wbad = True, 0
+    for k, st in enumerate(starts):
+        end = starts[k + 1] if k + 1 < len(starts) else len(reqs)
+        stream, pubrels, conn = b"", 0, 1
+        for i in range(st, end):
+            q = reqs[i]
+            f, _ = resp_fields(impl[i])
+            if q.startswith("eng.open"):
+                stream, pubrels = b"", 0
+                conn += 1
+            if f.get("bytes", "x") != "x":
+                stream += unhex(f["bytes"])
+                pkts, _, _ = split_packets(stream)
+                n = sum(1 for first, body in pkts if first >> 4 == 6 and body[:2] == b"\x00\x01")
+                if n > 1 and n > pubrels:
+                    once = False
+                    if wbad < 4:
+                        report.add_finding(Finding(prop, "mon:" + label + "-once", {"clause": "pubrel-repeated-within-connection"},
+                                                   f"the PUBREL for packet id 1 was written {n} times on one connection", reqs[st + 1:i + 1] + ["# impl: " + impl[i][:200]]))
+                    wbad += 1
+                pubrels = n
+        # the repeated PUBREC itself
+        for i in range(st, end):
+            if reqs[i].startswith("eng.data t=1 b=x50020001") and "pubrec" in "pubrec":
+                f, _ = resp_fields(impl[i])
+                if f.get("res") == "ok":
+                    once = False
+                    if wbad < 8:
+                        report.add_finding(Finding(prop, "mon:" + label + "-once", {"clause": "violation-accepted", "what": "second-pubrec"},
+                                                   "a second successful PUBREC for a delivery whose PUBREC had already been received was accepted (and queues the PUBREL again)", reqs[st + 1:i + 1] + ["# impl: " + impl[i][:200]]))
+                    wbad += 1
     report.count(label + ".scenarios", len(scripts))
     report.obligation("corr:" + label, "correspondence", ok, f"{len(scripts)} scripted scenarios (buffer splits x ack kinds x continuations x versions), every response compared")
     report.obligation("mon:" + label + "-no-panic", "monitor", nopanic, "no panic on any of them")
-    return ok and nopanic
+    report.obligation("mon:" + label + "-once", "monitor", once, "the PUBREL is written at most once per connection; a repeated PUBREC is refused")
+    return ok and nopanic and once
 
 
 def due_timeout_family(report, prop, label="due-timeout-while-writing"):
